@@ -15,7 +15,8 @@ import (
 // variables, directory), after the runner has layered runner / context / task / stage settings.
 // The shared task optionally uses a named execution context. Stages s0 and s1 override the common
 // name K and one name of their own (A0, A1); s2 overrides nothing; then another pipeline and a
-// direct run of the task on the same runner.
+// direct run of the task on the same runner. The task's directory is a template over the variable
+// K (s0 overrides K, s1 sets a literal directory of its own).
 
 type r08Seen struct {
 	Stage                 string
@@ -40,7 +41,16 @@ func r08Execute(e *executor.DefaultExecutor, ctx context.Context, job *executor.
 func r08NewExecutor(stdin interface{}, stdout, stderr interface{}) (*executor.DefaultExecutor, error) {
 	return &executor.DefaultExecutor{}, nil
 }
-func r08Render(t string, m map[string]interface{}) (string, error) { return t, nil }
+// the task's directory is a template over the variable K, which stage s0 overrides: a leading
+// {{.K}} is replaced by the value of K in the variables the job is compiled with
+func r08Render(t string, m map[string]interface{}) (string, error) {
+	const ph = "{{.K}}"
+	if len(t) >= len(ph) && t[:len(ph)] == ph {
+		k, _ := m["K"].(string)
+		return "/" + k + t[len(ph):], nil
+	}
+	return t, nil
+}
 
 func VerifC08Real(arr, preempt int) {
 	rt.ThreadMode(preempt)
@@ -51,7 +61,7 @@ func VerifC08Real(arr, preempt int) {
 	vt, wt := rt.OneOf("task.env.K", c08Vals...), rt.OneOf("task.var.K", c08Vals...)
 	v0, v1 := rt.OneOf("s0.env.K", c08Vals...), rt.OneOf("s1.env.K", c08Vals...)
 	w0 := rt.OneOf("s0.var.K", c08Vals...)
-	def := &taskDefinition{Name: "tk", Command: []string{"cmd"}, Dir: "/task-dir",
+	def := &taskDefinition{Name: "tk", Command: []string{"cmd"}, Dir: "{{.K}}-dir",
 		Env: map[string]string{"K": vt}, Variables: map[string]string{"K": wt}}
 	contexts := map[string]*runner.ExecutionContext{}
 	named := rt.Bool("task-uses-a-named-context")
@@ -67,8 +77,8 @@ func VerifC08Real(arr, preempt int) {
 	cfg.Tasks["tk"] = t
 	deps := [][][]string{{nil, nil, nil}, {nil, {"s0"}, {"s1"}}, {{"s1"}, {"s2"}, nil}}[arr]
 	sds := []*stageDefinition{
-		{Name: "s0", Task: "tk", DependsOn: deps[0], Dir: "/s0-dir", Env: map[string]string{"K": v0, "A0": "only-s0"}, Variables: map[string]string{"K": w0}},
-		{Name: "s1", Task: "tk", DependsOn: deps[1], Env: map[string]string{"K": v1, "A1": "only-s1"}},
+		{Name: "s0", Task: "tk", DependsOn: deps[0], Env: map[string]string{"K": v0, "A0": "only-s0"}, Variables: map[string]string{"K": w0}},
+		{Name: "s1", Task: "tk", DependsOn: deps[1], Dir: "/s1-dir", Env: map[string]string{"K": v1, "A1": "only-s1"}},
 		{Name: "s2", Task: "tk", DependsOn: deps[2]},
 	}
 	g, _ := scheduler.NewExecutionGraph()
@@ -89,13 +99,14 @@ func VerifC08Real(arr, preempt int) {
 
 	rt.Assert(len(r08Runs) == 5, "C08.real.every-stage-and-the-direct-run-executed-one-command")
 	for _, s := range r08Runs {
-		wantEnvK, wantVarK, wantDir := vt, wt, "/task-dir"
+		// the task's dir is the template {{.K}}-dir: rendered with the variables of the stage that runs
+		wantEnvK, wantVarK, wantDir := vt, wt, "/"+wt+"-dir"
 		wantA0, wantA1 := false, false
 		switch s.Stage {
 		case "s0":
-			wantEnvK, wantVarK, wantDir, wantA0 = v0, w0, "/s0-dir", true
+			wantEnvK, wantVarK, wantDir, wantA0 = v0, w0, "/"+w0+"-dir", true
 		case "s1":
-			wantEnvK, wantA1 = v1, true
+			wantEnvK, wantA1, wantDir = v1, true, "/s1-dir"
 		case "s2", "other", "": // "" = the direct run
 		default:
 			rt.Assert(false, "C08.stage-marker-is-the-stage's-own")
